@@ -20,10 +20,15 @@ Definition full_cols (wib b : Z) : list Z := smooth_cols 0 (wib - 1) b.
    crop-dependent variant would, last_MCU_col[ci] *)
 Definition lbc_of (lbc_is_width : bool) (wib last : Z) : Z := if lbc_is_width then wib - 1 else last.
 
+(* leftmost column the window may read: first_MCU_col[ci], or -- with the repair of crop-hazard7 (generated flag), which
+   loads the real left-hand neighbours of the first block column of the region -- block column 0 *)
+Definition lo_of (left_real : bool) (first : Z) : Z := if left_real then 0 else first.
+
 (* region columns (relative to the aligned left edge) that the replicated left neighbours can reach:
    two block columns of the component with the widest blocks (= 2 * alignment), plus the one output
    column the triangle filter of fancy h2 upsampling adds *)
-Definition smooth_left_band (align : Z) (fancy : bool) : Z := 2 * align + (if fancy then 1 else 0).
+Definition smooth_left_band (left_real : bool) (align : Z) (fancy : bool) : Z :=
+  if left_real then 0 else 2 * align + (if fancy then 1 else 0).
 
 (* is interblock smoothing active for the frames the check generates?  mode: 1 complete simple progression,
    3..5 truncated after 1..3 scans, 6/7 incomplete scan scripts; bscan: buffered-image output pass *)
